@@ -1,10 +1,51 @@
 import Vegeta.Go.Proto
-/-! Driver operations of property C20 (ops are named `c20.<name>`). -/
-namespace Vegeta.Driver.C20
-open Vegeta.Go Vegeta.Go.Proto
+import Vegeta.Model.Prom
+/-! Driver operations of property C20 (ops are named `c20.<name>`).
 
-def handle (_op : String) (args : List String) : Option String :=
-  match _op with
+`c20.observe n r₁ … rₙ` / `c20.observe_nosum n r₁ … rₙ` with
+`r = <methodhex> <urlhex> <code> <bytesIn> <bytesOut> <latency> <errorhex>`: observes the
+results in order on a fresh `Metrics` and prints what a scrape shows, children sorted by
+their label key; `_nosum` prints `*` for the histogram sums (concurrent observation: the
+order of the float additions is not fixed). -/
+namespace Vegeta.Driver.C20
+open Vegeta.Go Vegeta.Go.Proto Vegeta.Model.Prom
+
+def resP : P Result := do
+  let m ← bytes
+  let u ← bytes
+  let code ← nat
+  let bi ← nat
+  let bo ← nat
+  let lat ← int
+  let e ← bytes
+  pure { method := m, url := u, code := code, bytesIn := bi, bytesOut := bo, latency := lat, error := e }
+
+def keyOf (l : Labels) : String := hexEncode l.method ++ "." ++ hexEncode l.url ++ "." ++ toString l.code
+
+def sortByKey (xs : List (String × String)) : List (String × String) :=
+  (xs.toArray.qsort (fun a b => a.1 < b.1)).toList
+
+def showFamily (name : String) (xs : List (String × String)) : String :=
+  name ++ "=" ++ toString xs.length ++ (sortByKey xs).foldl (fun s (k, v) => s ++ " " ++ k ++ ":" ++ v) ""
+
+def showNatsComma (xs : List Nat) : String := ",".intercalate (xs.map toString)
+
+def showState (withSum : Bool) (s : State) : String :=
+  "ok " ++
+  showFamily "in" (s.bytesIn.map fun (k, v) => (keyOf k, toString v)) ++ " " ++
+  showFamily "out" (s.bytesOut.map fun (k, v) => (keyOf k, toString v)) ++ " " ++
+  showFamily "hist" (s.hist.map fun (k, c) =>
+    (keyOf k, toString c.count ++ ":" ++ (if withSum then toString c.sum.bits else "*") ++ ":" ++ showNatsComma (cumulative 0 c.buckets))) ++ " " ++
+  showFamily "fail" (s.fail.map fun ((k, msg), v) => (keyOf k ++ "." ++ hexEncode msg, toString v))
+
+def handle (op : String) (args : List String) : Option String :=
+  match op with
+  | "c20.observe" => do
+    let (rs, _) ← (listOf resP).run args
+    pure (showState true (observeAll State.init rs))
+  | "c20.observe_nosum" => do
+    let (rs, _) ← (listOf resP).run args
+    pure (showState false (observeAll State.init rs))
   | _ => none
 
 end Vegeta.Driver.C20
